@@ -125,3 +125,72 @@ Example C20_example :
   ex20_ret_claim (propagate 9 9 7 ex20_graph) = Some (Some (VField 3)) /\
   forallb (fun k => match propagate k k 7 ex20_graph with Ok c => vjust_cfg 7 c | _ => false end) [0; 1; 2; 3; 4; 9]%nat = true.
 Proof. vm_compute. repeat split; reflexivity. Qed.
+
+(* ------------------------------------------------------------------ *)
+(* THE UNIVERSAL STATEMENT FOR DEGREE CLAIMS.  For every graph meeting the
+   syntactic hypotheses Model.DegWf.deg_wf (no degree claim yet; assignment
+   targets are declared non-parameters marked local exactly when the table says
+   so; declaration statements agree with the table; the array read by an
+   element-wise update is a parameter, a signal/component declared by an earlier
+   statement, or a local not assigned from that statement on; a local has one
+   defining assignment - all evaluated by the check on every graph the
+   implementation hands to propagation) and for EVERY number of degree passes k,
+   the ranges Model.Propagate has attached after k passes are accepted by the
+   validator DegJustify.djust_cfg - hence upper bounds of the true polynomial
+   degree, by C07 (Proofs.DegGraphProofs.justified_degrees_true).  As for values,
+   the proof shows that every single statement visit preserves the invariant, so
+   it covers every prefix of a pass. *)
+Require Import Model.DegJustify Model.DegWf Proofs.DegInvariant.
+
+Theorem C20_degrees_validated_at_every_budget : forall k c bs env,
+  deg_wf c = true ->
+  degrees_passes k (denv_init (c_kind c) (c_params c)) (c_blocks c) = (bs, env) ->
+  djust_cfg (set_blocks c bs) = true.
+Proof. exact degrees_validated_at_every_budget. Qed.
+Print Assumptions C20_degrees_validated_at_every_budget.
+
+(* the same for the whole propagation: value passes under budget kv (they leave
+   degree claims, targets, types, declared names and the shape of every expression
+   untouched, so deg_wf still holds of their output), then degree passes under
+   budget kd *)
+Theorem C20_propagate_degrees_validated_at_every_budget : forall kv kd p c c',
+  deg_wf c = true -> propagate kv kd p c = Ok c' -> djust_cfg c' = true.
+Proof. exact propagate_degrees_validated_at_every_budget. Qed.
+Print Assumptions C20_propagate_degrees_validated_at_every_budget.
+
+(* non-vacuity: function f(a) { var x = a * 2; var y = x + 1; var z[2]; z[0] = y; return y * z[1]; }
+   as the SSA graph the implementation builds (a loop-free assignment chain with an
+   element-wise update of the never-assigned z.0) meets deg_wf; cut at 0, 1, 2, 9, 20 or
+   40 degree passes the graph is accepted by the validator; the range of the returned
+   product is still unknown after 9 passes and constant..quadratic at the fixpoint *)
+Definition ex20d_v (c : N) (ver : N) : vname := {| vn_name := [c]; vn_suffix := None; vn_version := Some ver |}.
+Definition ex20d_a0 : vname := ex20d_v 97 0.
+Definition ex20d_x0 : vname := ex20d_v 120 0.
+Definition ex20d_y0 : vname := ex20d_v 121 0.
+Definition ex20d_z0 : vname := ex20d_v 122 0.
+Definition ex20d_z1 : vname := ex20d_v 122 1.
+Definition ex20d_graph : cfg :=
+  {| c_kind := KFunction; c_params := [ex20d_a0];
+     c_decls := [(ex20d_a0, TLocal); (ex20d_x0, TLocal); (ex20d_y0, TLocal); (ex20d_z0, TLocal); (ex20d_z1, TLocal)];
+     c_blocks := [ {| b_index := 0%N; b_depth := 0%N; b_preds := []; b_succs := [];
+       b_stmts := [ SDecl ex20_m [ex20d_x0] TLocal [];
+                    SSubst ex20_m ex20d_x0 OpVar (EInfix IMul (EVar ex20d_a0 ex20_k0) (ENum 2 ex20_k0) ex20_k0) None (Some TLocal);
+                    SSubst ex20_m ex20d_y0 OpVar (EInfix IAdd (EVar ex20d_x0 ex20_k0) (ENum 1 ex20_k0) ex20_k0) None (Some TLocal);
+                    SSubst ex20_m ex20d_z1 OpVar (EUpdate ex20d_z0 [AIdx (ENum 0 ex20_k0)] (EVar ex20d_y0 ex20_k0) ex20_k0) None (Some TLocal);
+                    SRet ex20_m (EInfix IMul (EVar ex20d_y0 ex20_k0) (EAccess ex20d_z1 [AIdx (ENum 1 ex20_k0)] ex20_k0) ex20_k0) ] |} ] |}.
+Definition ex20d_ret_deg (o : outcome cfg) : option (option drange) :=
+  match o with
+  | Ok c => match c_blocks c with
+            | [b] => match b_stmts b with [_; _; _; _; SRet _ e] => Some (expr_deg e) | _ => None end
+            | _ => None
+            end
+  | _ => None
+  end.
+Example C20_degrees_example :
+  deg_wf ex20d_graph = true /\
+  forallb (fun k => match propagate k k 7 ex20d_graph with Ok c => djust_cfg c | _ => false end) [0; 1; 2; 9; 20; 40]%nat = true /\
+  forallb (fun k => match propagate 9 k 7 ex20d_graph with Ok c => djust_cfg c | _ => false end) [0; 1; 2; 9; 20; 40]%nat = true /\
+  ex20d_ret_deg (propagate 0 0 7 ex20d_graph) = Some None /\
+  ex20d_ret_deg (propagate 9 9 7 ex20d_graph) = Some None /\
+  ex20d_ret_deg (propagate 40 40 7 ex20d_graph) = Some (Some (DConst, DQuad)).
+Proof. vm_compute. repeat split; reflexivity. Qed.
